@@ -865,6 +865,28 @@ func (c *EvalCtx) evalSliceExpr(x *SSliceE) (TV, error) {
 	if err != nil {
 		return TV{}, err
 	}
+	if s.S == SStr {
+		// substring: the same uninterpreted str_sub the code's string slicing is modelled with
+		lo, hi := BV(64, 0), StrLen(s.Val)
+		if x.Lo != nil {
+			v, err := c.eval(x.Lo)
+			if err != nil {
+				return TV{}, err
+			}
+			v, _ = c.coerce(v, TV{Val: BV(64, 0)})
+			lo = v.Val
+		}
+		if x.Hi != nil {
+			v, err := c.eval(x.Hi)
+			if err != nil {
+				return TV{}, err
+			}
+			v, _ = c.coerce(v, TV{Val: BV(64, 0)})
+			hi = v.Val
+		}
+		f := c.W().Uninterp("str_sub", []Sort{SStr, BVSort(64), BVSort(64)}, SStr)
+		return TV{Val: Val{app(f, s.Val.T, lo.T, hi.T), SStr}, Ty: types.Typ[types.String]}, nil
+	}
 	if s.S != SSlice {
 		return TV{}, fmt.Errorf("slice expression on %s", s.S)
 	}
